@@ -334,6 +334,12 @@ def t1_assert(za, site):
                     return True, "zone: divisor %s is non-zero" % za.describe(d, l)
         return False, "divisor not shown non-zero"
     if k == "overflow_neg":
+        # `-x` overflows only for x == MIN
+        oa = Operand(m["a"])
+        r = _ty_range(za._op_ty(oa))
+        ia = interval(fn, prim.origin_of_operand(fn, oa), za, d)
+        if r is not None and ia is not None and ia[0] > r[0]:
+            return True, "interval: operand in [%s, %s], never the minimum of its type" % ia
         return False, "negation may overflow"
     return False, k
 
@@ -520,6 +526,12 @@ def t2_extapi(site):
         k = _const_operand(fn, t.args[-1])
         if k is not None and isinstance(k.a.get("v"), int) and k.a["v"] > 0:
             return "T2b", "constant positive divisor %d (unsigned: no overflow case)" % k.a["v"]
+        # one of several constants chosen by a match (`unit.bytes()` spliced in): each alternative a positive constant
+        do = prim.expand_single_def_vars(fn, prim.origin_of_operand(fn, t.args[-1]))
+        alts = prim.flatten_phi(do)
+        vals = [prim.const_eval(a_) for a_ in alts]
+        if len(alts) >= 2 and all(isinstance(v_, int) and v_ > 0 for v_ in vals) and "u" in str(fn.local_ty(t.args[-1].place.local) if t.args[-1].place is not None else "u"):
+            return "T2b", "divisor is one of the positive constants %s (unsigned: no overflow case)" % sorted(set(vals))
         return None
     if c == "chrono::DateTime::format":
         k = _const_operand(fn, t.args[1])
@@ -1048,10 +1060,17 @@ def interval(fn, o, za=None, d=None, depth=8):
         if inner is not None and dst is not None and inner[0] >= dst[0] and inner[1] <= dst[1]:
             return inner
         return dst
+    if s.k == "un" and str(s.a) == "Neg" and s.kids:
+        a = interval(fn, s.kids[0], za, d, depth - 1)
+        if a is not None and -zone.INF not in a and zone.INF not in a:
+            return (-a[1], -a[0])
+        return None
     if s.k == "bin":
         op = s.a
         a = interval(fn, s.kids[0], za, d, depth - 1)
         b = interval(fn, s.kids[1], za, d, depth - 1)
+        if op in ("Div",) and a is None and b is not None and b[0] > 0:
+            a = _ty_range(_origin_ty(fn, s.kids[0]))          # any value of the numerator's type
         if op in ("Div",) and a is not None and b is not None and (b[0] > 0 or b[1] < 0):
             cands = [int(x / y) for x in a for y in b if x not in (zone.INF, -zone.INF)]
             if len(cands) == 4:
@@ -1076,6 +1095,8 @@ def interval(fn, o, za=None, d=None, depth=8):
         return (0, zone.MAXLEN)
     if s.k == "len":
         return (0, zone.MAXLEN)
+    if s.k == "call" and s.a.get("name") == "from" and "From<bool>" in str(s.a.get("inst") or ""):
+        return (0, 1)          # `iN::from(b)` / `uN::from(b)`: false -> 0, true -> 1
     if s.k == "call":
         r = API_RANGES.get((s.a["callee"].split("::<")[0], ))
         if r is None:
